@@ -71,6 +71,12 @@ theorem keys_translated_pinned : Irismod.Gen.PureKeys.translated =
 theorem keys_guards_pinned : Irismod.Gen.PureKeys.guards =
     [] := rfl
 
+/-- every statement of these functions executed for its effect — a call whose result is dropped (store and bank
+writes, queue moves, hooks) or a write to a record field — with its nesting depth, in source order: a write that is
+dropped, duplicated, reordered or moved into or out of a branch breaks this -/
+theorem keys_effects_pinned : Irismod.Gen.PureKeys.effects =
+    ["OracleGetFeedValueKey: d0 binary.BigEndian.PutUint64(key, batchCounter)"] := rfl
+
 /-- one prefix byte -/
 abbrev P (b : UInt8) : ByteArray := ByteArray.mk #[b]
 /-- `sdk.Uint64ToBigEndian(uint64(h))` of an int64 height -/
